@@ -739,6 +739,21 @@ class CombinedExpressionSerialization(DeconstructedSerialization):
         2.2
     """
 
+    #: Connectors whose text differs from the Python operator producing them.
+    _python_operators = {
+        '%%': '%',
+        '^': '**',
+    }
+
+    #: Connectors that are only available as methods on an expression.
+    _python_methods = {
+        '&': 'bitand',
+        '|': 'bitor',
+        '<<': 'bitleftshift',
+        '>>': 'bitrightshift',
+        '#': 'bitxor',
+    }
+
     @classmethod
     def serialize_to_python(cls, value):
         """Serialize a CombinedExpression object to a Python code string.
@@ -751,11 +766,41 @@ class CombinedExpressionSerialization(DeconstructedSerialization):
             unicode:
             The resulting Python code.
         """
+        lhs = cls._serialize_operand(value.lhs)
+        rhs = cls._serialize_operand(value.rhs)
+        connector = value.connector
+        method = cls._python_methods.get(connector)
+
+        if method:
+            return '%s.%s(%s)' % (lhs, method, rhs)
+
         return '%s %s %s' % (
-            serialize_to_python(value.lhs),
-            value.connector,
-            serialize_to_python(value.rhs),
+            lhs,
+            cls._python_operators.get(connector, connector),
+            rhs,
         )
+
+    @classmethod
+    def _serialize_operand(cls, operand):
+        """Serialize one side of a CombinedExpression.
+
+        Nested combined expressions are wrapped in parentheses, so that
+        operator precedence can't regroup them when the code is loaded.
+
+        Args:
+            operand (object):
+                The operand to serialize.
+
+        Returns:
+            unicode:
+            The resulting Python code.
+        """
+        result = serialize_to_python(operand)
+
+        if isinstance(operand, CombinedExpression):
+            result = '(%s)' % result
+
+        return result
 
     @classmethod
     def _deconstruct_object(cls, obj):
